@@ -442,10 +442,14 @@ class Sym:
        calls  : {C function name: lean name of an already translated Sym in the same file}
        body   : optional literal replacement for the located body (used for expression-only
                 anchors: the located text is wrapped as `{ return <expr>; }`)
-       expr   : if True the anchor's group(1) is an expression, not a function body"""
-    def __init__(self, header, anchor, lean, params, ret=None, outputs=None, subst=(), calls=None, which=0, expr=False, doc=""):
+       expr   : if True the anchor's group(1) is an expression, not a function body
+       inline : [(regex of a call statement, anchor of the callee, which)] -- every match of the regex in the located body is
+                replaced by the callee's brace block taken from the same header (textual inlining of a void member function
+                that works on the same state), before `subst` is applied"""
+    def __init__(self, header, anchor, lean, params, ret=None, outputs=None, subst=(), calls=None, which=0, expr=False, doc="", inline=()):
         self.header, self.anchor, self.lean, self.params, self.ret = header, anchor, lean, params, ret
         self.outputs, self.subst, self.calls, self.which, self.expr, self.doc = outputs, list(subst), calls or {}, which, expr, doc
+        self.inline = list(inline)
 
 def translate_sym(sym, include_root, known):
     path = os.path.join(include_root, sym.header)
@@ -458,6 +462,9 @@ def translate_sym(sym, include_root, known):
     else:
         body = find_body(text, sym.anchor, sym.which)
     src = body
+    for pat, callee_anchor, callee_which in getattr(sym, "inline", ()):
+        callee = find_body(text, callee_anchor, callee_which)
+        body = re.sub(pat, lambda m: callee, body)
     for pat, rep in sym.subst: body = re.sub(pat, rep, body)
     env = {n: parse_type(t) for n, t in sym.params}
     funcs = {}
